@@ -1169,6 +1169,39 @@ func decodedEdit(c *mon.Ctx, r *gen.Rand) {
 	if len(ds) != len(ms) {
 		return // reported by C08
 	}
+	// two signals decoded from the same bytes are two signals: editing one through the handles its
+	// descriptors hand out does not show in the other
+	if r.Chance(3) {
+		y, err := scte35.NewSCTE35(append([]byte{}, snap...))
+		if err == nil && y != nil {
+			touched := false
+			for _, d := range y.Descriptors() {
+				for _, cp := range d.Components() {
+					cp.SetPTSOffset(cp.PTSOffset() ^ 0x0f0f0f0f)
+					cp.SetComponentTag(cp.ComponentTag() + 1)
+					touched = true
+				}
+				for _, u := range d.MID() {
+					u.SetUPID(append([]byte("x"), u.UPID()...))
+					touched = true
+				}
+			}
+			if touched {
+				c.Count("decoded_edit.twin_edited_through_handles")
+				z, err := scte35.NewSCTE35(append([]byte{}, snap...))
+				if err != nil || z == nil {
+					c.Fail("decoded-edit:third-decode-error", fmt.Sprintf("the same bytes were rejected when decoded a third time: %v", err), w(nil, ""))
+					return
+				}
+				for name, sig := range map[string]scte35.SCTE35{"decoded before": x, "decoded after": z} {
+					if got := sig.UpdateData(); !bytes.Equal(got, sec) {
+						c.Fail("decoded-edit:twin-shows-the-other-signals-edits", fmt.Sprintf("a second signal decoded from the same bytes was edited through the handles of its descriptors' components / MID elements; the signal %s the edit now encodes differently from the section at byte %d", name, ref.FirstDiff(got, sec)), w(got, name))
+						return
+					}
+				}
+			}
+		}
+	}
 	var edits []string
 	for n := 1 + r.Intn(3); n > 0; n-- {
 		k := r.Intn(len(ds))
@@ -1365,6 +1398,7 @@ func run(c *mon.Ctx) {
 	c.Stream("large", c.N(100, 20000), func(i int, r *gen.Rand) { large(c, r) })
 	c.Stream("own-handles", c.N(1500, 600000), func(i int, r *gen.Rand) { ownHandles(c, r) })
 	c.Floor("decoded_edit.cases", 3000)
+	c.Floor("decoded_edit.twin_edited_through_handles", 300)
 	c.Floor("reencode.after_rejected_section", 1000)
 	c.Floor("handle.own_mid_reordered", 500)
 	c.Floor("handle.own_components_reordered", 500)
